@@ -5,6 +5,7 @@ pub assume_specification [u8::is_ascii_whitespace] (c: &u8) -> (r: bool)
     ensures r == is_ws(*c);   // discharged by Kani harness std_is_ascii_whitespace (all 256 values)
 
 //@ fn canonical.rs trim_ascii_start
+//@ params bytes
 //@ props C08 C11 C12 C19
 //@ ret r
 //   (`const` dropped: range indexing is not const-callable; a const fn and a fn run the same code at run time)
@@ -22,6 +23,7 @@ pub assume_specification [u8::is_ascii_whitespace] (c: &u8) -> (r: bool)
 //@ end
 
 //@ fn canonical.rs trim_ascii_end
+//@ params bytes
 //@ props C08 C11 C12 C19
 //@ ret r
 //@ replace 1 `pub const fn trim_ascii_end` => `pub fn trim_ascii_end`
@@ -38,6 +40,7 @@ pub assume_specification [u8::is_ascii_whitespace] (c: &u8) -> (r: bool)
 //@ end
 
 //@ fn canonical.rs trim_ascii
+//@ params bytes
 //@ props C08 C11 C12 C19
 //@ ret r
 //@ replace 1 `pub const fn trim_ascii` => `pub fn trim_ascii`
